@@ -59,8 +59,10 @@ RECURSIVE Neutral(_)
 Neutral(n) ==
   CASE n.t = "st"  -> {[n EXCEPT !.p = Bump(n.p)]}
     [] n.t = "stk" -> {[n EXCEPT !.paren = ~n.paren], [n EXCEPT !.nspad = ~n.nspad], [n EXCEPT !.sym = <<"&">>]}
+                      \cup {[n EXCEPT !.form = f] : f \in {"native", "alias", "xalias", "ptr"} \ {n.form}}        \* C12
                       \cup UNION {{[n EXCEPT !.e[i] = m] : m \in Neutral(n.e[i])} : i \in 1..Len(n.e)}
     [] n.t = "cnd" -> {[n EXCEPT !.paren = ~n.paren]} \cup {[n EXCEPT !.ex = m] : m \in Neutral(n.ex)}
+                      \cup {[n EXCEPT !.form = f] : f \in {"native", "alias", "ptr"} \ {n.form}}
     [] n.t = "ptr" -> {[n EXCEPT !.x = m] : m \in Neutral(n.x)}
     [] OTHER -> {}
 
